@@ -2,6 +2,7 @@
 structures, stage F term, exact frame oracle cache."""
 from fractions import Fraction as Fr
 
+import random
 from .. import common as C
 from .. import exact_frame as X
 from .. import gen_struct as G
@@ -14,6 +15,8 @@ ERRORS = ["", "", "1e-3", "1e-6", "1e-4"]
 def gen(rng, tier, n_quick=60, n_thorough=1500):
     n = n_quick if tier == "quick" else n_thorough
     cases = []
+    # the drawn structures of the main loop have a stream of their own: adding a fixed family in front of them does not change them
+    main = random.Random(rng.getrandbits(64))
     for i in range(6 if tier == "quick" else 60):
         # loads on supported nodes, solved directly and from the .inkfempre text read back
         s = G.gen_support_loads(rng)
@@ -67,12 +70,12 @@ def gen(rng, tier, n_quick=60, n_thorough=1500):
     for i in range(3 if tier == "quick" else 30):
         cases.append(core.case_from_struct(G.gen_slider_joint(rng, ["only_dy", "only_rz", "slide_x"][i % 3]), Weight=False, Solve=True, Assemble=True, Error="1e-6", ViaPre=(i % 3 == 2)))
     for i in range(n):
-        s = G.gen_solvable(rng)
+        s = G.gen_solvable(main)
         if i % 7 == 3:
             # node lines annotated with (stale) equation numbers, as when a nodes section is pasted from a
             # preprocessed file: the definition reader accepts them, the numbering must not be influenced
             ids = list(s.nodes)
-            s.node_dof_notes = {k: tuple(rng.sample(range(0, 40), 3)) for k in rng.sample(ids, max(1, len(ids) // 2))}
+            s.node_dof_notes = {k: tuple(main.sample(range(0, 40), 3)) for k in main.sample(ids, max(1, len(ids) // 2))}
             s.meta["kind"] = s.meta.get("kind", "?") + "+dofnotes"
         if i % 9 == 5:
             # identifiers are free text: numbers spelled with leading zeros ('01' and '1' are two different nodes)
@@ -89,7 +92,7 @@ def gen(rng, tier, n_quick=60, n_thorough=1500):
         if i % 6 == 4 and not getattr(s, "node_dof_notes", None):
             # the same definition in another valid layout: tabs and any term order inside the braces, split sections, comments
             from .. import layouts as L
-            c["Text"] = L.layout(rng, s)
+            c["Text"] = L.layout(main, s)
             c["kind"] += "+layout"
         if i % 5 == 2 and cases:
             # the solution is looked at again after another structure (the previous one of this run) was solved in the same process
